@@ -5,18 +5,26 @@ EXTENDS Select, TraceBase
 
 VARIABLE l
 
+(* Tokens that denote a null row of the event's data type: "~" for every type *)
+(* with a validity bitmap; a union has no top-level validity, its null rows    *)
+(* are the null rows of any of its variants ("u<id>:~"), which are identified  *)
+(* with each other here (which variant carries a produced null is free).       *)
+NT(ev) == {ev.nulltoks[i] : i \in 1..Len(ev.nulltoks)}
+Nrm(ev, seq) == [i \in 1..Len(seq) |-> IF seq[i] \in NT(ev) THEN NullTok ELSE seq[i]]
+NrmAll(ev, cols) == [c \in 1..Len(cols) |-> Nrm(ev, cols[c])]
+
 Expected(ev) ==
-  CASE ev.op = "filter"     -> Filter(ev.rows, ev.mask)
-    [] ev.op = "take"       -> Take(ev.rows, ev.idx)
-    [] ev.op = "concat"     -> Ok(ConcatAll(ev.cols))
-    [] ev.op = "interleave" -> Interleave(ev.cols, ev.pairs)
-    [] ev.op = "zip"        -> Zip(ev.mask, ev.a, ev.as, ev.b, ev.bs)
-    [] ev.op = "nullif"     -> NullIf(ev.rows, ev.mask)
-    [] ev.op = "shift"      -> Shift(ev.rows, ev.k)
-    [] ev.op = "slice"      -> Slice(ev.rows, ev.o, ev.n)
-    [] ev.op = "merge"      -> Ok(MergeFrom(ev.cols, ev.idx, 1, [c \in 1..Len(ev.cols) |-> 0]))
-    [] ev.op = "dictgc"     -> Ok(ev.rows)
-    [] ev.op = "realise"    -> Ok(ev.rows)
+  CASE ev.op = "filter"     -> Filter(Nrm(ev, ev.rows), ev.mask)
+    [] ev.op = "take"       -> Take(Nrm(ev, ev.rows), ev.idx)
+    [] ev.op = "concat"     -> Ok(ConcatAll(NrmAll(ev, ev.cols)))
+    [] ev.op = "interleave" -> Interleave(NrmAll(ev, ev.cols), ev.pairs)
+    [] ev.op = "zip"        -> Zip(ev.mask, Nrm(ev, ev.a), ev.as, Nrm(ev, ev.b), ev.bs)
+    [] ev.op = "nullif"     -> NullIf(Nrm(ev, ev.rows), ev.mask)
+    [] ev.op = "shift"      -> Shift(Nrm(ev, ev.rows), ev.k)
+    [] ev.op = "slice"      -> Slice(Nrm(ev, ev.rows), ev.o, ev.n)
+    [] ev.op = "merge"      -> Ok(MergeFrom(NrmAll(ev, ev.cols), ev.idx, 1, [c \in 1..Len(ev.cols) |-> 0]))
+    [] ev.op = "dictgc"     -> Ok(Nrm(ev, ev.rows))
+    [] ev.op = "realise"    -> Ok(Nrm(ev, ev.rows))
     [] ev.op = "count"      -> Ok(<<CountSel(ev.mask)>>)
 
 (***************************************************************************)
@@ -27,22 +35,22 @@ Expected(ev) ==
 HasNullIdx(ev) == \E j \in 1..Len(ev.idx) : ev.idx[j] = -1
 NonNullAgree(ev) ==    \* take: every non-null index position is right
   /\ Len(ev.out) = Len(ev.idx)
-  /\ \A j \in 1..Len(ev.idx) : ev.idx[j] # -1 => ev.out[j] = ev.rows[ev.idx[j] + 1]
+  /\ \A j \in 1..Len(ev.idx) : ev.idx[j] # -1 => Nrm(ev, ev.out)[j] = Nrm(ev, ev.rows)[ev.idx[j] + 1]
 
 KF(ev) ==
-  CASE ev.op = "nullif" /\ ev.fam \in {"union", "ree"} /\ ~ev.err /\ ev.out = ev.rows
+  CASE ev.op = "nullif" /\ ev.fam \in {"union", "ree"} /\ ~ev.err /\ Nrm(ev, ev.out) = Nrm(ev, ev.rows)
          -> "C03-nullif-no-validity-type"
     [] ev.op = "take" /\ ev.fam \in {"ree", "union"} /\ ~ev.err /\ HasNullIdx(ev) /\ NonNullAgree(ev)
          -> "C03-take-no-validity-null-index"
-    [] ev.op = "take" /\ ev.fam = "ree" /\ ev.err /\ HasNullIdx(ev) /\ ~Take(ev.rows, ev.idx).err
+    [] ev.op = "take" /\ ev.fam \in {"ree", "union"} /\ ev.err /\ HasNullIdx(ev) /\ ~Take(ev.rows, ev.idx).err
          -> "C03-take-no-validity-null-index"   \* same cause: the value under the null slot is out of range
-    [] ev.op \in {"filter", "take"} /\ ev.zw /\ ~ev.err /\ ev.out = <<>>
+    [] ev.op \in {"filter", "take", "interleave"} /\ ev.zw /\ ~ev.err /\ ev.out = <<>>
          -> "C03-zero-width-length-lost"
     [] OTHER -> ""
 
 Init == l = 1
 Next == /\ l <= Len(Rec)
         /\ l' = l + 1
-        /\ LET ev == Rec[l] IN JudgeKF(Agrees(Expected(ev), ev.err, ev.out), l, ev.op, KF(ev))
+        /\ LET ev == Rec[l] IN JudgeKF(Agrees(Expected(ev), ev.err, Nrm(ev, ev.out)), l, ev.op, KF(ev))
 Spec == Init /\ [][Next]_l
 =============================================================================
